@@ -270,6 +270,24 @@ func runC06(res *lp.Result) {
 				dec.Header.UncompressedPayloadLength, dec.Header.CompressedPayloadLength, dec.Header.Crc24, dec.Payload.Crc32, hx(dec.Payload.UncompressedData)), id)
 		}
 	}
+	// the header checksum itself, against the independent bit-by-bit reference, over many header words of both layouts (a payload
+	// length reaches only a few thousand of the 2^17 words per run)
+	for i := 0; i < 60000; i++ {
+		w3 := rng.U64() & 0x3ffff
+		w5 := rng.U64() & 0x7ffffffff
+		if i < 4096 {
+			w3, w5 = uint64(i)*64+63, uint64(i)*64+63 // every value of the low bytes
+		}
+		if got, want := crc.ChecksumKoopman(w3, 3), refCrc24(w3, 3); got != want {
+			res.Add(lp.Finding{Kind: "violation", What: "header CRC-24 differs from the v5 framing's (3 header bytes)", Input: fmt.Sprintf("header word %#x", w3), Impl: fmt.Sprintf("%06x", got), Model: fmt.Sprintf("%06x", want)})
+			break
+		}
+		if got, want := crc.ChecksumKoopman(w5, 5), refCrc24(w5, 5); got != want {
+			res.Add(lp.Finding{Kind: "violation", What: "header CRC-24 differs from the v5 framing's (5 header bytes)", Input: fmt.Sprintf("header word %#x", w5), Impl: fmt.Sprintf("%06x", got), Model: fmt.Sprintf("%06x", want)})
+			break
+		}
+	}
+	res.Count("header-crc-differential")
 	for _, n := range segLengths(rng) {
 		for ci, p := range contentClasses(rng, n) {
 			for _, sc := range []bool{true, false} {
@@ -513,7 +531,9 @@ func runC07(res *lp.Result) {
 	}
 	flip := func(b []byte, bit int) { b[bit/8] ^= 1 << uint(bit%8) }
 	// the last two really travel compressed through the LZ4 codec (the random ones do not compress and are sent as they are)
-	payloads := [][]byte{{}, {0x42}, rng.Bytes(17), rng.Bytes(300), bytes.Repeat([]byte("SELECT * FROM t "), 12), append(rng.Bytes(40), make([]byte, 90)...)}
+	// (… and a run of one byte value, as in zero-filled blobs: every stretch of it looks like every other)
+	payloads := [][]byte{{}, {0x42}, rng.Bytes(17), rng.Bytes(300), bytes.Repeat([]byte("SELECT * FROM t "), 12), append(rng.Bytes(40), make([]byte, 90)...),
+		bytes.Repeat([]byte{7}, 640)}
 	if thorough() {
 		payloads = append(payloads, rng.Bytes(5000), make([]byte, 2000))
 	}
